@@ -853,6 +853,129 @@ func vDecodeAck(b []byte, r vWCfg) (uint32, bool) {
 	return 0, false
 }
 
+// ---- label codec: add then remove is the identity, for every label length, on packets and on
+// streams however the stream is fragmented (C16) ------------------------------------------------
+
+type vCodecLine struct {
+	Ev       string `json:"ev"`
+	Case     int    `json:"case"`
+	Kind     string `json:"kind"` // packet | stream
+	LabelLen int    `json:"labelLen"`
+	Payload  string `json:"payload"` // class of the payload
+	Frag     string `json:"frag"`    // how the stream was written
+	Ok       bool   `json:"ok"`
+	Why      string `json:"why"`
+}
+
+type vFragConn struct {
+	net.Conn
+}
+
+func TestVerifLabelCodec(t *testing.T) {
+	trace := os.Getenv("VERIF_TRACE")
+	if trace == "" {
+		t.Skip("VERIF_TRACE not set")
+	}
+	out, err := os.Create(trace)
+	if err != nil {
+		t.Fatal(err)
+	}
+	defer out.Close()
+	w := bufio.NewWriter(out)
+	defer w.Flush()
+	payloads := map[string][]byte{
+		"empty":       {},
+		"one":         {7},
+		"magic-first": {244, 3, 'a', 'b', 'c', 9, 9}, // looks like a label header itself
+		"ping":        append([]byte{byte(pingMsg)}, bytes.Repeat([]byte{0x55}, 40)...),
+		"large":       bytes.Repeat([]byte("0123456789abcdef"), 600),
+	}
+	id := 0
+	emit := func(l vCodecLine) {
+		id++
+		l.Ev, l.Case = "Codec", id
+		b, _ := json.Marshal(l)
+		w.Write(b)
+		w.WriteByte('\n')
+	}
+	for n := 1; n <= 255; n++ {
+		label := strings.Repeat("x", n-1) + string(rune('a'+n%26))
+		for pc, p := range payloads {
+			// packets
+			l := vCodecLine{Kind: "packet", LabelLen: n, Payload: pc, Frag: "-", Ok: true}
+			buf, err := AddLabelHeaderToPacket(p, label)
+			if err != nil {
+				l.Ok, l.Why = false, "add: "+err.Error()
+			} else {
+				rest, got, err := RemoveLabelHeaderFromPacket(buf)
+				if err != nil || got != label || !bytes.Equal(rest, p) {
+					l.Ok, l.Why = false, fmt.Sprintf("remove: err=%v label ok=%v payload ok=%v", err, got == label, bytes.Equal(rest, p))
+				}
+			}
+			emit(l)
+			// streams under several fragmentations
+			for _, frag := range []string{"one-write", "byte-by-byte", "split-in-header", "header-then-payload"} {
+				if pc == "large" && frag == "byte-by-byte" && n%16 != 0 {
+					continue
+				}
+				l := vCodecLine{Kind: "stream", LabelLen: n, Payload: pc, Frag: frag, Ok: true}
+				c1, c2 := net.Pipe()
+				hdr := append([]byte{244, byte(n)}, label...)
+				all := append(append([]byte(nil), hdr...), p...)
+				go func() {
+					defer c1.Close()
+					switch frag {
+					case "one-write":
+						_, _ = c1.Write(all)
+					case "byte-by-byte":
+						for i := range all {
+							if _, err := c1.Write(all[i : i+1]); err != nil {
+								return
+							}
+						}
+					case "split-in-header":
+						k := 1 + n/2
+						_, _ = c1.Write(all[:k])
+						_, _ = c1.Write(all[k:])
+					case "header-then-payload":
+						_, _ = c1.Write(hdr)
+						if len(p) > 0 {
+							_, _ = c1.Write(p)
+						}
+					}
+				}()
+				conn, got, err := RemoveLabelHeaderFromStream(c2)
+				if err != nil {
+					l.Ok, l.Why = false, "remove: "+err.Error()
+					_ = c2.Close()
+				} else {
+					rest, rerr := io.ReadAll(conn)
+					if got != label || !bytes.Equal(rest, p) {
+						l.Ok, l.Why = false, fmt.Sprintf("label ok=%v payload ok=%v (%d of %d bytes, err=%v)", got == label, bytes.Equal(rest, p), len(rest), len(p), rerr)
+					}
+					_ = conn.Close()
+				}
+				emit(l)
+			}
+		}
+	}
+	// no label: nothing is added and nothing is removed
+	for pc, p := range payloads {
+		l := vCodecLine{Kind: "packet", LabelLen: 0, Payload: pc, Frag: "-", Ok: true}
+		buf, err := AddLabelHeaderToPacket(p, "")
+		if err != nil || !bytes.Equal(buf, p) {
+			l.Ok, l.Why = false, "an empty label changed the packet"
+		}
+		if pc != "magic-first" {
+			rest, got, err := RemoveLabelHeaderFromPacket(p)
+			if err != nil || got != "" || !bytes.Equal(rest, p) {
+				l.Ok, l.Why = false, "unlabelled packet was changed by removal"
+			}
+		}
+		emit(l)
+	}
+}
+
 func TestVerifWireCases(t *testing.T) {
 	cases, trace := os.Getenv("VERIF_CASES"), os.Getenv("VERIF_TRACE")
 	if cases == "" || trace == "" {
